@@ -9,7 +9,9 @@ type PrettyJSONFormatter struct {
 	Writer io.Writer
 }
 
-func (f *PrettyJSONFormatter) Write(result interface{}) error {
+func (f *PrettyJSONFormatter) Write(result interface{}) (err error) {
+	defer recoverWriteError(&err)
+
 	data, err := json.MarshalIndent(result, "", "  ")
 	if err != nil {
 		return err
